@@ -7,6 +7,7 @@ import (
 	"net/http"
 	"strings"
 	"sync"
+	"time"
 
 	"github.com/notaryproject/notation-core-go/revocation"
 	corecrl "github.com/notaryproject/notation-core-go/revocation/crl"
@@ -171,7 +172,10 @@ func c11Scenarios(tier mc.Tier) []mc.Scenario {
 	for o := 0; o <= 3; o++ {
 		for c := 0; c <= 3; c++ {
 			for _, p := range []purposeKind{purposeCS, purposeTS} {
-				for _, entry := range []string{"validate", "checkstatus"} {
+				for _, entry := range []string{"validate", "checkstatus", "legacy-New+Validate"} {
+					if entry == "legacy-New+Validate" && p == purposeTS {
+						continue // revocation.New is code-signing only
+					}
 					add(&c11Scenario{n: 2, o: []int{o}, c: []int{c}, purpose: p, entry: entry, lazy: true, bound: -1})
 				}
 			}
@@ -224,6 +228,9 @@ func (s *c11Scenario) body(c *mc.Ctx) {
 			}
 		}
 	}
+	ctx, cancel := context.WithCancel(context.Background())
+	defer cancel()
+	cancelledAt := -1
 	tr := &netsim.Transport{}
 	tr.Handler = func(r *netsim.Request, raw *http.Request) netsim.Answer {
 		src, ok := parseSource(r.URL)
@@ -235,7 +242,16 @@ func (s *c11Scenario) body(c *mc.Ctx) {
 			if !drawn[key] {
 				drawn[key] = true
 				if src.kind == "ocsp" {
-					ocspCls[src.cert][src.idx] = c.ChooseFree("answer:"+key, len(ocspClassNames))
+					n := len(ocspClassNames)
+					if s.entry == "validate" {
+						n++ // class 4: the caller's context is cancelled while this request is in flight
+					}
+					ocspCls[src.cert][src.idx] = c.ChooseFree("answer:"+key, n)
+					if ocspCls[src.cert][src.idx] == 4 {
+						cancelledAt = src.idx
+						cancel()
+						return netsim.Answer{Err: context.Canceled}
+					}
 				} else {
 					crlCls[src.cert][src.idx] = c.ChooseFree("answer:"+key, len(crlClassNames))
 				}
@@ -270,7 +286,20 @@ func (s *c11Scenario) body(c *mc.Ctx) {
 		if e != nil {
 			panic(mc.HarnessError{Msg: e.Error()})
 		}
-		res, err, pan = callValidate(v, context.Background(), revocation.ValidateContextOptions{CertChain: chain})
+		res, err, pan = callValidate(v, ctx, revocation.ValidateContextOptions{CertChain: chain})
+	case "legacy-New+Validate":
+		func() {
+			defer func() {
+				if r := recover(); r != nil {
+					pan = r
+				}
+			}()
+			v, e := revocation.New(tr.Client())
+			if e != nil {
+				panic(mc.HarnessError{Msg: e.Error()})
+			}
+			res, err = v.Validate(chain, time.Time{})
+		}()
 	case "checkstatus":
 		func() {
 			defer func() {
@@ -285,10 +314,20 @@ func (s *c11Scenario) body(c *mc.Ctx) {
 		c.Fail("C11 valid chain not processed", "panic=%v err=%v len(results)=%d want %d", pan, err, len(res), s.n)
 		return
 	}
+	if cancelledAt >= 0 {
+		// once the context is done every later source of the certificate is inconclusive: the responders after it error out and
+		// every distribution point fails to download; the table still applies (Unknown OCSP + distribution points => fallback)
+		for j := cancelledAt; j < len(ocspCls[0]); j++ {
+			ocspCls[0][j] = 3
+		}
+		for j := range crlCls[0] {
+			crlCls[0][j] = 2
+		}
+	}
 	reqs := tr.Requests()
 	var state []string
 	for i := 0; i < nr; i++ {
-		want := refCert(i, ocspCls[i], crlCls[i], s.entry)
+		want := refCert(i, ocspCls[i], crlCls[i], map[string]string{"legacy-New+Validate": "validate"}[s.entry]+map[string]string{"validate": "validate", "checkstatus": "checkstatus"}[s.entry])
 		state = append(state, fmt.Sprintf("c%d:%s/%s/%d", i, want.res, want.method, len(want.srs)))
 		c.Outcome(fmt.Sprintf("%s:%s/%s", s.entry, want.res, want.method))
 		if c.Tracing() {
@@ -301,7 +340,7 @@ func (s *c11Scenario) body(c *mc.Ctx) {
 			}
 			c.Tracef("cert %d: responders %v, distribution points %v -> expect %s via %s with %d server results; got %s via %s with %d", i, oc, cc, want.res, want.method, len(want.srs), res[i].Result, res[i].RevocationMethod, len(res[i].ServerResults))
 		}
-		strict := s.entry == "validate" || s.o[i] > 0
+		strict := s.entry != "checkstatus" || s.o[i] > 0
 		if s.entry == "checkstatus" && s.o[i] == 0 {
 			// statement is silent about the label of a certificate without responders at the OCSP-only entry point
 			if res[i] == nil || res[i].Result != result.ResultNonRevokable {
